@@ -243,8 +243,37 @@ def _worker(args):
                             summ = prop.summarise(case) if hasattr(prop, "summarise") else case
                             ctx.samples.append({"labels": sorted(set(ctx._labels)), "case": summ})
 
+        # ---- exhaustive part (finite product enumerated completely, sharded by index), if the property has one
+        if hasattr(prop, "enumerate_cases"):
+            try:
+                for idx, case in enumerate(prop.enumerate_cases()):
+                    if idx % nshards != shard:
+                        continue
+                    ctx._nontrivial = False
+                    ctx._labels = []
+                    ctx.evaluations += 1
+                    out["enumerated"] = out.get("enumerated", 0) + 1
+                    try:
+                        run_one(prop, case, ctx)
+                    except Violation as v:
+                        if state["failure"] is None:
+                            state["failure"] = {"case": case, "sig": v.sig, "msg": v.msg}
+                            state["fail_t"] = time.time()
+                        out.setdefault("enum_failures", 0)
+                        out["enum_failures"] += 1
+                        sigs = out.setdefault("enum_sigs", {})
+                        if v.sig not in sigs and len(sigs) < 20:
+                            sigs[v.sig] = {"case": case, "sig": v.sig, "msg": v.msg}
+                    if ctx._nontrivial:
+                        ctx.hashes.append(case_hash(case))
+                    if len(ctx.samples) < 2 and ctx._nontrivial and idx % 997 == shard:
+                        ctx.samples.append({"labels": sorted(set(ctx._labels)), "case": case})
+            except HarnessError as he:
+                out["harness_error"] = str(he)
+
         try:
-            test()
+            if state["failure"] is None and "harness_error" not in out:
+                test()
         except HarnessError as he:
             out["harness_error"] = str(he)
         except Violation:
@@ -411,6 +440,13 @@ def main(argv=None):
 
     seen_sigs = set(v[0] for v in violations)
     for r in results:
+        for sig, f in sorted(r.get("enum_sigs", {}).items()):
+            if sig not in seen_sigs:
+                seen_sigs.add(sig)
+                path = write_replay(prop_id, f, verif_seed, args.tier)
+                print("shard %d (enumeration): %s: %s" % (r["shard"], f["sig"], f["msg"]))
+                violations.append((f["sig"], f["msg"], path))
+    for r in results:
         f = r.get("failure")
         if f and f["sig"] not in seen_sigs:
             seen_sigs.add(f["sig"])
@@ -441,6 +477,7 @@ def main(argv=None):
             "examples_per_shard": per,
             "truncated_by_wall_cap": bool(truncated),
             "exhaustive": bool(getattr(prop, "EXHAUSTIVE", False)),
+            "enumerated_cases": int(sum(r.get("enumerated", 0) for r in results)),
             "repo": env.REPO,
         },
         "assumptions": getattr(prop, "ASSUMPTIONS", []),
